@@ -136,7 +136,29 @@ impl Prop for C03 {
         file.number();
         let wild = rng.chance(1, 4);
         let text = if wild { print_wild(&mut file, rng).0 } else { print_house(&mut file) };
-        let source = py::gen_any_source(rng, 10, 25);
+        // now and then a parent with hundreds of children and a pattern with two non-adjacent
+        // sibling steps: thousands of simultaneous in-progress matches
+        let big = rng.chance(1, 40);
+        if big {
+            let pair = POOL.iter().position(|q| q.text.starts_with("(module (expression_statement) @stmt_a")).unwrap_or(0);
+            let shape = POOL[pair];
+            let stmts = vec![
+                stmt(StmtKind::Node(GVar::u("pair"))),
+                stmt(StmtKind::AttrNode(GExpr::var("pair"), vec![GAttr { name: "stanza".into(), value: Some(GExpr::Int(0)) }, GAttr { name: "cap_stmt_a".into(), value: Some(GExpr::cap("stmt_a")) }, GAttr { name: "cap_stmt_b".into(), value: Some(GExpr::cap("stmt_b")) }])),
+            ];
+            file = GFile { items: vec![Item::Stanza(GStanza { query: shape.text.into(), pool: Some(pair), stmts, loc: Loc::default() })] };
+            file.number();
+        }
+        let text = if big { print_house(&mut file) } else { text };
+        let source = if big {
+            let n = rng.range(120, 230);
+            (0..n).map(|i| format!("v{}\n", i)).collect::<String>()
+        } else {
+            py::gen_any_source(rng, 10, 25)
+        };
+        if big {
+            out.feat("parent_with_hundreds_of_children");
+        }
         let tree = parse_python(&source);
         let ti = TreeInfo::new(&tree);
         if ti.anomaly.is_some() {
